@@ -289,6 +289,35 @@ def _lib(li, seed, tape):
     return once() == once()
 
 
+SPELLED = [('cnfgen', ['kcolor', 3, 'gnp', 5, '.5']), ('cnfgen', ['php', 'glrd', 3, 4, 2]), ('cnfgen', ['op', 3, '-T', 'xorcomp', 'glrd', 6, 4, 2]),
+           ('pbgen', ['kcolor', 2, 'gnm', 4, 3]), ('cnfgen', ['kclique', 3, 'gnm', 5, 4, 'plantclique', 3]), ('cnfgen', ['tseitin', 'random', 'gnd', 6, 3])]
+SPELLINGS = [['--seed', '7'], ['--seed=7'], ['-S7'], ['-S', '7'], ['--see', '7'], ['-q', '--seed=0'], ['--seed', '7', '--seed', '3'], ['-S3', '-v']]
+
+
+def _spelled(ci, sp, tape):
+    """every spelling of the seed option that the command line parser accepts seeds the graph arguments as well"""
+    tool, argv = SPELLED[ci]
+    full = SPELLINGS[sp] + list(argv)
+    a = run_cli(tool, full, tape)
+    b = run_cli(tool, full, tape)
+    return a == b
+
+
+def h_e_seed_spelling(ci: int, sp: int) -> bool:
+    """
+    pre: 0 <= ci <= 5 and 0 <= sp <= 7
+    post: _
+    """
+    tape = Tape(limit=40)
+    try:
+        ok = untraced(_spelled, pick(ci, 0, 5), pick(sp, 0, 7), tape)
+    except TapeExhausted:
+        return True
+    if not ok:
+        raise AssertionError('two runs of %s %r differ TAPE=%r' % (SPELLED[ci][0], SPELLINGS[sp] + SPELLED[ci][1], tape.log))
+    return True
+
+
 def _lib_headers(ci, tape):
     """a library call made twice on equal but distinct argument objects gives the same complete output, header included
     (no object identity, no counter, nothing of the first call in the second)"""
